@@ -342,7 +342,12 @@ def encoder_slots(repo: Repo, module: Module, clsname: str, method: str = "encod
     rec(fn.body)
     body = max(cands, key=lambda c: c[0])[1] if cands else None
     if body is None:
-        # pack may sit inside a helper (timer encoders): look for a helper with pack
+        # the per-record packing may sit in a helper that is mapped over the records: b"".join(self._enc(r) for r in message.records)
+        for n_ in ast.walk(fn):
+            if isinstance(n_, (ast.GeneratorExp, ast.ListComp)) and len(n_.generators) == 1 and isinstance(n_.generators[0].target, ast.Name):
+                e_ = n_.elt
+                if isinstance(e_, ast.Call) and isinstance(e_.func, ast.Attribute) and isinstance(e_.func.value, ast.Name) and e_.func.value.id == "self" and e_.func.attr in ci.methods and len(e_.args) == 1 and isinstance(e_.args[0], ast.Name) and e_.args[0].id == n_.generators[0].target.id and method == "encode":
+                    return encoder_slots(repo, module, clsname, e_.func.attr, want_fmt)
         raise AnalysisError(f"{module.relpath}: {clsname}.{method}: no struct pack found")
     params = fn.args.args[1:]
     env = {}
